@@ -91,15 +91,15 @@ Fire(x) == IF ~CanFire(x) THEN x
 \* what each operation sends and which reply it expects
 
 OpMethod(op) ==
-    CASE op \in {"declare", "declare_nowait"} -> "queue.declare"
+    CASE op \in {"declare", "declare_nowait", "declare_passive"} -> "queue.declare"
       [] op \in {"bind", "bind_nowait"} -> "queue.bind"
       [] op = "unbind" -> "queue.unbind"
       [] op \in {"purge", "purge_nowait"} -> "queue.purge"
       [] op \in {"delete", "delete_nowait"} -> "queue.delete"
-      [] op = "exdeclare" -> "exchange.declare"
-      [] op = "exdelete" -> "exchange.delete"
-      [] op = "exbind" -> "exchange.bind"
-      [] op = "exunbind" -> "exchange.unbind"
+      [] op \in {"exdeclare", "exdeclare_nowait", "exdeclare_passive"} -> "exchange.declare"
+      [] op \in {"exdelete", "exdelete_nowait"} -> "exchange.delete"
+      [] op \in {"exbind", "exbind_nowait"} -> "exchange.bind"
+      [] op \in {"exunbind", "exunbind_nowait"} -> "exchange.unbind"
       [] op = "qos" -> "basic.qos"
       [] op = "recover" -> "basic.recover"
       [] op \in {"select", "select_nowait"} -> "confirm.select"
@@ -113,12 +113,12 @@ OpMethod(op) ==
       [] OTHER -> "?"
 
 OpReply(op) ==
-    CASE op = "declare" -> {"queue.declare-ok"}
+    CASE op \in {"declare", "declare_passive"} -> {"queue.declare-ok"}
       [] op = "bind" -> {"queue.bind-ok"}
       [] op = "unbind" -> {"queue.unbind-ok"}
       [] op = "purge" -> {"queue.purge-ok"}
       [] op = "delete" -> {"queue.delete-ok"}
-      [] op = "exdeclare" -> {"exchange.declare-ok"}
+      [] op \in {"exdeclare", "exdeclare_passive"} -> {"exchange.declare-ok"}
       [] op = "exdelete" -> {"exchange.delete-ok"}
       [] op = "exbind" -> {"exchange.bind-ok"}
       [] op = "exunbind" -> {"exchange.unbind-ok"}
@@ -134,6 +134,7 @@ OpReply(op) ==
       [] OTHER -> {}
 
 NowaitOps == {"declare_nowait", "bind_nowait", "purge_nowait", "delete_nowait", "select_nowait",
+              "exdeclare_nowait", "exdelete_nowait", "exbind_nowait", "exunbind_nowait",
               "publish", "listen_confirms", "listen_returns"}
 
 Fr(ch, m) == [type |-> "method", ch |-> ch, m |-> m]
@@ -141,8 +142,10 @@ Fr(ch, m) == [type |-> "method", ch |-> ch, m |-> m]
 \* operations whose method carries a nowait bit, and the value it must have
 HasNowaitBit == {"declare", "declare_nowait", "bind", "bind_nowait", "purge", "purge_nowait", "delete",
                  "delete_nowait", "select", "select_nowait", "exdeclare", "exdelete", "exbind", "exunbind",
-                 "consume", "cancel", "dropc"}
-NowaitVariants == {"declare_nowait", "bind_nowait", "purge_nowait", "delete_nowait", "select_nowait"}
+                 "declare_passive", "exdeclare_passive", "exdeclare_nowait", "exdelete_nowait", "exbind_nowait",
+                 "exunbind_nowait", "consume", "cancel", "dropc"}
+NowaitVariants == {"declare_nowait", "bind_nowait", "purge_nowait", "delete_nowait", "select_nowait",
+                   "exdeclare_nowait", "exdelete_nowait", "exbind_nowait", "exunbind_nowait"}
 FrOp(ch, op) == IF op \in HasNowaitBit THEN Fr(ch, OpMethod(op)) @@ [nowait |-> op \in NowaitVariants]
                 ELSE Fr(ch, OpMethod(op))
 
@@ -293,6 +296,21 @@ SameFrame(a, b) ==
            /\ a.exchange = b.exchange /\ a.routing_key = b.routing_key
            /\ a.mandatory = b.mandatory /\ a.immediate = b.immediate)
 
+\* A frame on the wire that is not the one the model has next in the output buffer.  The check is
+\* attributed to the property whose clause speaks about the frames involved (the frame written
+\* and the one that was due): cancel replies C11, channel close handshake C09, connection close
+\* handshake C08, publish frames C02, anything else C01.
+WireMethods(e, out) ==
+    (IF e.type = "method" THEN {e.m} ELSE {e.type})
+    \cup (IF out = <<>> THEN {} ELSE IF Head(out).type = "method" THEN {Head(out).m} ELSE {Head(out).type})
+WireLabel(e, out) ==
+    LET M == WireMethods(e, out) IN
+    CASE M \cap {"basic.cancel", "basic.cancel-ok"} # {} -> "C11:wire-cancel"
+      [] M \cap {"channel.close", "channel.close-ok"} # {} -> "C09:wire-chclose"
+      [] M \cap {"connection.close", "connection.close-ok"} # {} -> "C08:wire-connclose"
+      [] M \cap {"basic.publish", "header", "body"} # {} -> "C02:wire-publish"
+      [] OTHER -> "C01:wire-order"
+
 TC2s ==
     /\ IsEv("c2s")
     /\ IF st.hs
@@ -305,7 +323,7 @@ TC2s ==
             /\ UNCHANGED <<w, ops, seen>>
        ELSE LET e == Rec[l]
                 ok == w.out # <<>> /\ SameFrame(Head(w.out), e)
-            IN /\ Step(<< <<"C01:wire-order", ok>>,
+            IN /\ Step(<< <<WireLabel(e, w.out), ok>>,
                           \* the nowait bit is set exactly in the nowait variants
                           <<"C04:nowait-bit", (ok /\ Has(Head(w.out), "nowait") /\ Has(e, "nowait"))
                                                  => e.nowait = Head(w.out).nowait>>,
@@ -332,7 +350,7 @@ ErrLabel(k) ==
 
 \* values carried by a successful reply
 SameVal(op, val, f) ==
-    CASE op = "declare" -> val.queue = f.queue /\ val.message_count = f.message_count
+    CASE op \in {"declare", "declare_passive"} -> val.queue = f.queue /\ val.message_count = f.message_count
                            /\ val.consumer_count = f.consumer_count
       [] op \in {"purge", "delete"} -> val.message_count = f.message_count
       [] op = "consume" -> val.tag = f.consumer_tag
